@@ -23,6 +23,7 @@ import (
 	"github.com/hyperledger/aries-framework-go/component/models/ld/testutil"
 	"github.com/hyperledger/aries-framework-go/component/models/ld/validator"
 	sigapi "github.com/hyperledger/aries-framework-go/component/models/signature/api"
+	"github.com/hyperledger/aries-framework-go/component/models/signature/signer"
 	"github.com/hyperledger/aries-framework-go/component/models/signature/suite"
 	"github.com/hyperledger/aries-framework-go/component/models/signature/suite/bbsblssignature2020"
 	"github.com/hyperledger/aries-framework-go/component/models/signature/suite/ecdsasecp256k1signature2019"
@@ -135,6 +136,9 @@ type world struct {
 	di         *diWorld
 	diExpect   [3]string // purpose, domain, challenge the verifier expects of a Data Integrity proof
 	lastDIVerifies []diVerify
+	suiteSubset    []string               // when set: the verifier is configured with the suites of these proof types only
+	jwtKey         *keyInfo               // issuer key of the JWT credentials embedded in presentations
+	baseline       map[string]interface{} // the signed document as the framework parses and re-serialises it
 }
 
 // recSuite is what the framework sees: it records every call and delegates to the real suite.
@@ -333,6 +337,12 @@ func newWorld(rng *hx.Rng) *world {
 
 	w.suites = append(w.suites, bbs)
 
+	jsg, err := sigutil.NewSigner(kms.ED25519Type)
+	must(err)
+
+	w.jwtKey = &keyInfo{atom: 200, did: "did:example:jwtissuer", frag: "#k0", signer: jsg,
+		pub: &sigapi.PublicKey{Type: "Ed25519VerificationKey2018", Value: jsg.PublicKeyBytes()}}
+
 	w.di = newDIWorld(w)
 	w.suites = append(w.suites, &suiteDef{name: "DataIntegrityProof", repr: verifiable.SignatureProofValue, w: w, extra: diCtx, di: true})
 
@@ -340,6 +350,10 @@ func newWorld(rng *hx.Rng) *world {
 }
 
 func (w *world) fetch(issuerID, keyID string) (*sigverifier.PublicKey, error) {
+	if !strings.HasPrefix(keyID, "#") {
+		keyID = "#" + keyID // the JWT verifier passes the fragment without '#'
+	}
+
 	full := issuerID + keyID
 	if k, ok := w.badFetch[full]; ok {
 		return k.pub, nil
@@ -351,7 +365,21 @@ func (w *world) fetch(issuerID, keyID string) (*sigverifier.PublicKey, error) {
 		}
 	}
 
+	if w.jwtKey != nil && w.jwtKey.id() == full {
+		return w.jwtKey.pub, nil
+	}
+
 	return nil, fmt.Errorf("verif: no key %s", full)
+}
+
+func contains(l []string, x string) bool {
+	for _, e := range l {
+		if e == x {
+			return true
+		}
+	}
+
+	return false
 }
 
 func (w *world) verifierSuites() []sigverifier.SignatureSuite {
@@ -360,6 +388,10 @@ func (w *world) verifierSuites() []sigverifier.SignatureSuite {
 	seen := map[string]bool{}
 
 	for _, s := range w.suites {
+		if w.suiteSubset != nil && !contains(w.suiteSubset, s.name) {
+			continue
+		}
+
 		if !seen[s.name] && !s.di {
 			seen[s.name] = true
 
@@ -379,6 +411,23 @@ type signOpts struct {
 	domain    string
 	challenge string
 	purpose   string
+	nonce     []byte // only the signer package takes a nonce (LinkedDataProofContext has none): signed through signer.New(...).Sign
+}
+
+// signWithNonce signs through the framework's document signer directly (the only way to have a nonce in the proof).
+func (w *world) signWithNonce(b []byte, so signOpts) (map[string]interface{}, error) {
+	so.suite.cur = so.key
+	w.rec = &recording{}
+
+	out, err := signer.New(so.suite).Sign(&signer.Context{
+		SignatureType: so.suite.name, SignatureRepresentation: ldproof.SignatureRepresentation(so.suite.repr), Created: &so.created,
+		VerificationMethod: so.key.id(), Challenge: so.challenge, Domain: so.domain, Purpose: so.purpose, Nonce: so.nonce,
+	}, b, processor.WithDocumentLoader(w.loader))
+	if err != nil {
+		return nil, fmt.Errorf("sign: %w", err)
+	}
+
+	return mustParse(out), nil
 }
 
 func (w *world) signVC(doc map[string]interface{}, so signOpts) (map[string]interface{}, error) {
@@ -386,6 +435,15 @@ func (w *world) signVC(doc map[string]interface{}, so signOpts) (map[string]inte
 		verifiable.WithDisabledProofCheck())
 	if err != nil {
 		return nil, fmt.Errorf("parse unsigned: %w", err)
+	}
+
+	if so.nonce != nil {
+		b, e := vc.MarshalJSON()
+		if e != nil {
+			return nil, e
+		}
+
+		return w.signWithNonce(b, so)
 	}
 
 	so.suite.cur = so.key
@@ -413,6 +471,15 @@ func (w *world) signVP(doc map[string]interface{}, so signOpts) (map[string]inte
 		verifiable.WithPresDisabledProofCheck())
 	if err != nil {
 		return nil, fmt.Errorf("parse unsigned: %w", err)
+	}
+
+	if so.nonce != nil {
+		b, e := vp.MarshalJSON()
+		if e != nil {
+			return nil, e
+		}
+
+		return w.signWithNonce(b, so)
 	}
 
 	so.suite.cur = so.key
@@ -470,10 +537,20 @@ func proofStageError(kind string, err error) bool {
 }
 
 func (w *world) verify(kind string, b []byte, strict bool) (verdict, *recording) {
+	v, r, _ := w.verifyParsed(kind, b, strict)
+
+	return v, r
+}
+
+// verifyParsed also returns the accepted object as the framework re-serialises it.
+func (w *world) verifyParsed(kind string, b []byte, strict bool) (verdict, *recording, map[string]interface{}) {
 	w.rec = &recording{}
 	w.di.verifies = nil
 
-	var err error
+	var (
+		err    error
+		parsed map[string]interface{}
+	)
 
 	if kind == "vc" {
 		opts := []verifiable.CredentialOpt{verifiable.WithJSONLDDocumentLoader(w.loader),
@@ -487,7 +564,14 @@ func (w *world) verify(kind string, b []byte, strict bool) (verdict, *recording)
 			opts = append(opts, verifiable.WithStrictValidation())
 		}
 
-		_, err = verifiable.ParseCredential(b, opts...)
+		var vc *verifiable.Credential
+
+		vc, err = verifiable.ParseCredential(b, opts...)
+		if err == nil {
+			if pb, e := vc.MarshalJSON(); e == nil {
+				parsed = mustParse(pb)
+			}
+		}
 	} else {
 		opts := []verifiable.PresentationOpt{verifiable.WithPresJSONLDDocumentLoader(w.loader),
 			verifiable.WithPresEmbeddedSignatureSuites(w.verifierSuites()...), verifiable.WithPresPublicKeyFetcher(w.fetch),
@@ -500,7 +584,14 @@ func (w *world) verify(kind string, b []byte, strict bool) (verdict, *recording)
 			opts = append(opts, verifiable.WithPresStrictValidation())
 		}
 
-		_, err = verifiable.ParsePresentation(b, opts...)
+		var vp *verifiable.Presentation
+
+		vp, err = verifiable.ParsePresentation(b, opts...)
+		if err == nil {
+			if pb, e := vp.MarshalJSON(); e == nil {
+				parsed = mustParse(pb)
+			}
+		}
 	}
 
 	v := verdict{Accepted: err == nil, ProofPass: !proofStageError(kind, err), Calls: len(w.rec.verifies)}
@@ -517,7 +608,7 @@ func (w *world) verify(kind string, b []byte, strict bool) (verdict, *recording)
 		}
 	}
 
-	return v, w.rec
+	return v, w.rec, parsed
 }
 
 // ---------- the Gallina case ----------
@@ -704,8 +795,10 @@ type caseDesc struct {
 	Seed     uint64 `json:"seed"`
 	DocIndex int    `json:"doc_index"`
 	// corpus cases carry the unsigned document and the edit operations
-	Unsigned map[string]interface{} `json:"unsigned,omitempty"`
-	Ops      []op                   `json:"ops,omitempty"`
+	Unsigned map[string]interface{}   `json:"unsigned,omitempty"`
+	Ops      []op                     `json:"ops,omitempty"`
+	JWTCreds []map[string]interface{} `json:"jwt_credentials,omitempty"`
+	SpareJWT map[string]interface{}   `json:"spare_jwt,omitempty"`
 }
 
 type observed struct {
@@ -714,14 +807,16 @@ type observed struct {
 }
 
 func (w *world) runCase(tr *hx.Trace, gen string, cd caseDesc, doc map[string]interface{}, nproofs int, withCoq bool) {
-	b := toJSON(doc)
+	b := orderedJSON(doc)
 	cd.Doc = b
+	byteOrder := memberOrder(doc)
+	doc = mustParse(b) // the document as its bytes read (marks of the member order removed)
 
-	vd, rec := w.verify(cd.Kind, b, false)
+	vd, rec, parsed := w.verifyParsed(cd.Kind, b, false)
 	w.lastDIVerifies = w.di.verifies
 	vs, recS := vd, rec
 
-	runStrict := cd.Class != "must-reject" || w.tick%4 == 0
+	runStrict := cd.Class != "must-reject" || w.tick%4 == 0 || strings.HasPrefix(editKind(cd.Edit), "jwtcred")
 	w.tick++
 
 	if runStrict {
@@ -748,7 +843,32 @@ func (w *world) runCase(tr *hx.Trace, gen string, cd caseDesc, doc map[string]in
 		}
 	case "must-reject":
 		if verified(vd) || verified(vs) || (vd.Accepted && vd.Verifies != 0) {
-			fail("tamper-accepted:"+editKind(cd.Edit), fmt.Sprintf("edit %s accepted as verified (%s %s): %+v", cd.Edit, cd.Suite, cd.Repr, vd))
+			sig := "tamper-accepted:" + editKind(cd.Edit)
+			if strings.HasPrefix(editKind(cd.Edit), "jwtcred") {
+				sig = "vp-jwt-credential-string-not-covered"
+			}
+
+			fail(sig, fmt.Sprintf("edit %s accepted as verified (%s %s): %+v", cd.Edit, cd.Suite, cd.Repr, vd))
+		}
+	case "casevariant":
+		// default mode: if accepted as verified, the parsed object must still hold the signed members
+		if verified(vd) && w.baseline != nil && parsed != nil {
+			for k, want := range w.baseline {
+				if k == "proof" {
+					continue
+				}
+
+				if string(toJSON(parsed[k])) != string(toJSON(want)) {
+					fail("case-variant-member-overrides-signed-member", fmt.Sprintf("edit %s: accepted as verified, but the parsed %s is %s (signed: %s)",
+						cd.Edit, k, toJSON(parsed[k]), toJSON(want)))
+
+					break
+				}
+			}
+		}
+
+		if vs.Accepted {
+			fail("strict-undefined-accepted", fmt.Sprintf("edit %s: member the context does not define accepted in strict mode", cd.Edit))
 		}
 	case "undef":
 		if vs.Accepted {
@@ -773,6 +893,11 @@ func (w *world) runCase(tr *hx.Trace, gen string, cd caseDesc, doc map[string]in
 		fail("primitive-contract", rec.contract+recS.contract)
 	}
 
+	// every proof PRESENT in an accepted document must have been verified (whatever suites the verifier registered)
+	if nEntries := len(proofEntries(doc)); vd.Accepted && nEntries > 0 && vd.Verifies < nEntries {
+		fail("accepted-with-unverified-proof", fmt.Sprintf("edit %s: accepted with %d proof(s) present but %d verified", cd.Edit, nEntries, vd.Verifies))
+	}
+
 	if vd.ProofPass != vs.ProofPass || vd.Verifies != vs.Verifies {
 		fail("strict-changes-proof-check", fmt.Sprintf("%+v vs %+v", vd, vs))
 	}
@@ -784,12 +909,12 @@ func (w *world) runCase(tr *hx.Trace, gen string, cd caseDesc, doc map[string]in
 		nd, _ := normalise(m).(map[string]interface{})
 
 		strict := "None"
-		if cd.Class == "undef" || cd.Class == "identity" || strings.HasPrefix(cd.Edit, "dup") ||
+		if cd.Class == "undef" || cd.Class == "identity" || cd.Class == "casevariant" || strings.HasPrefix(cd.Edit, "dup") ||
 			strings.HasPrefix(cd.Edit, "reorder") || strings.HasPrefix(cd.Edit, "struct") {
 			strict = w.strictInfo(doc)
 		}
 
-		r.Coq = fmt.Sprintf("K %s %s %s %s", w.coqEnv(nd, rec), coqObj(nd), coqOutcome(vd), strict)
+		r.Coq = fmt.Sprintf("K %s %s %s %s %s", w.coqEnv(nd, rec), coqObj(nd), coqOutcome(vd), strict, coqParsed(cd.Kind, byteOrder, doc, parsed))
 	}
 
 	out := "rej"
@@ -868,7 +993,7 @@ func main() {
 		sd := w.suites[i%len(w.suites)]
 		kind := "vc"
 
-		if i%7 == 6 {
+		if i%3 == 2 {
 			kind = "vp"
 		}
 
@@ -881,10 +1006,14 @@ func main() {
 			continue
 		}
 
+		w.suiteSubset = nil
+		_, _, w.baseline = w.verifyParsed(kind, toJSON(signed), false)
+
 		edits := g.edits(r, kind, sd, signed, n, leafCap)
 		for j, e := range edits {
 			d, _ := clone(signed).(map[string]interface{})
 			w.badFetch = map[string]*keyInfo{}
+			w.suiteSubset = nil
 
 			if !e.apply(d) {
 				continue
@@ -903,6 +1032,7 @@ func main() {
 		}
 
 		w.badFetch = map[string]*keyInfo{}
+		w.suiteSubset = nil
 	}
 }
 
@@ -991,4 +1121,100 @@ func countExpandedLeaves(v interface{}) int {
 	}
 
 	return 0
+}
+
+// jwtCredential issues a JWT credential (compact JWS) through the real API.
+func (w *world) jwtCredential(vcDoc map[string]interface{}) (string, error) {
+	vcDoc["issuer"] = w.jwtKey.did
+
+	vc, err := verifiable.ParseCredential(toJSON(vcDoc), verifiable.WithJSONLDDocumentLoader(w.loader), verifiable.WithDisabledProofCheck())
+	if err != nil {
+		return "", err
+	}
+
+	claims, err := vc.JWTClaims(false)
+	if err != nil {
+		return "", err
+	}
+
+	return claims.MarshalJWS(verifiable.EdDSA, w.jwtKey.signer, w.jwtKey.id())
+}
+
+// memberOrder lists the top-level member names in the order orderedJSON prints them.
+func memberOrder(doc map[string]interface{}) []string {
+	var ks, late []string
+
+	for k := range doc {
+		if strings.HasPrefix(k, lastPrefix) {
+			late = append(late, k)
+		} else {
+			ks = append(ks, k)
+		}
+	}
+
+	sort.Strings(ks)
+	sort.Strings(late)
+
+	out := make([]string, 0, len(ks)+len(late))
+	for _, k := range append(ks, late...) {
+		out = append(out, strings.TrimPrefix(k, lastPrefix))
+	}
+
+	return out
+}
+
+// coqParsed prints, for the string-valued identity members of an accepted object, the top-level members in byte
+// order and the value the typed object ended up with.
+func coqParsed(kind string, order []string, doc, parsed map[string]interface{}) string {
+	if parsed == nil {
+		return "[]"
+	}
+
+	fields := []string{"id", "issuer"}
+	if kind == "vp" {
+		fields = []string{"id", "holder"}
+	}
+
+	var out []string
+
+	for _, f := range fields {
+		ok := true
+
+		for _, k := range order {
+			if strings.EqualFold(k, f) {
+				if _, isStr := doc[k].(string); !isStr {
+					ok = false
+				}
+			}
+		}
+
+		got, isStr := parsed[f].(string)
+		if _, present := parsed[f]; present && !isStr {
+			ok = false
+		}
+
+		if !ok {
+			continue
+		}
+
+		var ms []string
+
+		for _, k := range order {
+			v := "JNull"
+			if sv, isS := doc[k].(string); isS {
+				v = "JStr " + cs(sv)
+			}
+
+			ms = append(ms, fmt.Sprintf("(%s, %s)", hx.CoqString(k), v)) // names are NOT interned: the model folds their case
+		}
+
+		val := "JNull"
+		if isStr {
+			val = "JStr " + cs(got)
+		}
+
+		out = append(out, fmt.Sprintf("(%s, %s, %s)", hx.CoqString(f), hx.CoqList(ms), val))
+	}
+
+	return hx.CoqList(out)
 }
